@@ -7,7 +7,7 @@ from pbt.core import call
 
 PROP = "C03"
 TECHNIQUE = "Hypothesis-generated (region, magnitude grid, catalog) triples vs. naive exact reference gridding; conservation/marginal identities; negative cases (out-of-region / below-minimum events) must be rejected or left uncounted"
-RULE = ("one case = region (Cartesian lattice with holes/mask flags/permuted cells, or quadtree: single resolution zoom 1..4 or a prefix-free "
+RULE = ("(mixed Cartesian cases also take one catalog object through refused gridding -> magnitude histogram -> filter to region and range -> gridding again) one case = region (Cartesian lattice with holes/mask flags/permuted cells, or quadtree: single resolution zoom 1..4 or a prefix-free "
         "partial quadkey set) x magnitude grid (decimal start/step, 1..8 bins; bound to the region or passed explicitly) x catalog (0..40 "
         "events placed by construction: cell lower-left corners, cell edges, interiors; magnitudes on bin edges, interiors, far above the last "
         "edge; duplicates; any order; 1 case in 16 repeats its event list 30x/100x; 1 in 3 passes a caller-supplied tol with events 0.3 tol "
